@@ -362,6 +362,10 @@ func (eval Evaluator) InnerFunction(ctIn *Ciphertext, batchSize, n int, f func(a
 	*ctInNTT.MetaData = *ctIn.MetaData
 	ctInNTT.IsNTT = true
 
+	// opOut receives copies of NTT-domain intermediates (metadata included) and may be ctIn itself:
+	// the domain of the input is recorded here and restored on the result.
+	isNTT := ctIn.IsNTT
+
 	if !ctIn.IsNTT {
 		ringQ.NTT(ctIn.Value[0], ctInNTT.Value[0])
 		ringQ.NTT(ctIn.Value[1], ctInNTT.Value[1])
@@ -460,9 +464,10 @@ func (eval Evaluator) InnerFunction(ctIn *Ciphertext, batchSize, n int, f func(a
 		}
 	}
 
-	if !ctIn.IsNTT {
+	if !isNTT {
 		ringQ.INTT(opOut.Value[0], opOut.Value[0])
 		ringQ.INTT(opOut.Value[1], opOut.Value[1])
+		opOut.IsNTT = false
 	}
 
 	return
